@@ -153,6 +153,14 @@ impl Text {
     }
 }
 
+/// can this character occur in an XML 1.0 document (the `Char` production)?
+fn is_xml_char(ch: char) -> bool {
+    matches!(
+        ch as u32,
+        0x9 | 0xA | 0xD | 0x20..=0xD7FF | 0xE000..=0xFFFD | 0x10000..=0x10FFFF
+    )
+}
+
 fn replace_html_char<'a>(ch: char) -> Cow<'a, str> {
     match ch {
         '>' => Cow::from("&gt;"),
@@ -160,9 +168,27 @@ fn replace_html_char<'a>(ch: char) -> Cow<'a, str> {
         '&' => Cow::from("&amp;"),
         '\'' => Cow::from("&#39;"),
         '"' => Cow::from("&quot;"),
-        '\0' => Cow::from(""),
+        // a literal carriage return would be read back as a line feed
+        '\r' => Cow::from("&#13;"),
+        // the NUL fillers and every other character XML can not represent are dropped
+        ch if !is_xml_char(ch) => Cow::from(""),
         _ => Cow::from(ch.to_string()),
     }
+}
+
+/// escape the character data of the `<style>` element: markup characters are escaped,
+/// characters XML can not represent are dropped, quotes stay as they are
+pub(crate) fn escape_style_text(s: &str) -> String {
+    s.chars()
+        .map(|ch| match ch {
+            '>' => Cow::from("&gt;"),
+            '<' => Cow::from("&lt;"),
+            '&' => Cow::from("&amp;"),
+            '\r' => Cow::from("&#13;"),
+            ch if !is_xml_char(ch) => Cow::from(""),
+            _ => Cow::from(ch.to_string()),
+        })
+        .collect()
 }
 
 fn escape_html_text(s: &str) -> String {
